@@ -421,9 +421,9 @@ type absTrace struct {
 // abstract the events that touch dir
 func abstract(evs []sysEvent, dir string, init map[string]entry, dest string) absTrace {
 	var a absTrace
-	fdName := map[string]string{}  // fd -> base name (files of dir)
-	created := map[string]bool{}   // names created by the run
-	readonly := map[string]bool{}  // fd opened O_RDONLY
+	fdName := map[string]string{} // fd -> base name (files of dir)
+	created := map[string]bool{}  // names created by the run
+	readonly := map[string]bool{} // fd opened O_RDONLY
 	name := func(n string) string {
 		if id, ok := pathID[n]; ok {
 			return fmt.Sprintf("%x", id)
